@@ -72,7 +72,8 @@ func c15KeyLess(a, b [2]uint64) bool {
 }
 
 func c15Host(hp string) string {
-	if i := strings.IndexByte(hp, ':'); i >= 0 {
+	// the port follows the LAST ':' ("[::1]:80" is on host "[::1]")
+	if i := strings.LastIndexByte(hp, ':'); i >= 0 {
 		return hp[:i]
 	}
 	return hp
